@@ -31,13 +31,14 @@ contains an unquoted metacharacter other than the `.*` / `.` it emits itself -/
 theorem C17_total (p : Bytes) : ∃ r, globRegex p = r := ⟨_, rfl⟩
 
 /-- **KEYS and SCAN MATCH agree**: SCAN hands the handler the very regular expression KEYS compiles from the
-same pattern (`SCAN … MATCH p` ⇒ `globRegex p`; without MATCH ⇒ `globRegex "*"`). -/
+same pattern (`SCAN … MATCH p` ⇒ `globRegex p`; without MATCH ⇒ `globRegex "*"`).  Patterns are valid UTF-8 (every
+pattern over the property's alphabet is): Go's `regexp` refuses anything else, for KEYS and for SCAN alike. -/
 theorem C17_scan_uses_glob (cur : Bytes) (n : Int) (kw pat : Bytes) (rest : List Msg)
-    (hc : atoi cur = some n) (hk : upper kw = b!"MATCH") :
+    (hc : atoi cur = some n) (hk : upper kw = b!"MATCH") (hv : validUtf8 pat = true) :
     ∃ r cnt, scanOpts defaultScanRegex 10 (B kw :: B pat :: rest) = scanOpts (globRegex pat) 10 rest ∧
       defaultScanRegex = globRegex b!"*" ∧ (scanOpts (globRegex pat) 10 [] = .ok (r, cnt) → r = globRegex pat) := by
   refine ⟨globRegex pat, 10, ?_, rfl, fun _ => rfl⟩
-  simp [scanOpts, B, msgStr, hk]
+  simp [scanOpts, B, msgStr, hk, hv]
 
 /-! ## Non-vacuity and the formerly wrong answers -/
 example : globMatch b!"a.c" b!"abc" = false ∧ globMatch b!"a.c" b!"a.c" = true := by simp [globMatch]
